@@ -631,8 +631,8 @@ func (x *Exec) convert(t string, from, to *Sort) string {
 	case from.K == SBV && to.K == SBV:
 		return x.bvResize(t, from, to.Bits, false)
 	case from.K == SInt && to.K == SInt:
-		if to.Bits == 0 {
-			return t
+		if to.Bits == 0 || from.Bits == 0 {
+			return t // spec integers are mathematical
 		}
 		if from.Bits != 0 {
 			flo, fhi := rangeOf(from)
